@@ -150,6 +150,7 @@ func (rawRule) ret(tc *traceClient, x *core.TSCtx, r *ssa.Return, q string, err 
 
 func runC02(c *Ctx) {
 	R := c.R
+	defer c.include("C02.S1", "C09", []string{"C09.R1"}, "a DataRow field is framed by the length of exactly the bytes that follow it", 4)
 	R.Technique = "typestate / grammar-inclusion over CFG paths with function summaries (frame bracket + field grammar + count agreement); who-may-write ownership of the connection; structural rules on the Writer implementation"
 	R.Explanation = "Decides that every byte sequence the library can hand to the connection is a complete backend message of a known type whose body is in that type's grammar, on every path and for every handler behaviour: " +
 		"(R1) only Writer.End and the two one-byte SSL replies write to the connection; the writer's embedded io.Writer and frame bytes are not reachable from outside pkg/buffer; the session writer wraps the connection returned by Handshake; the writer is never handed to another goroutine. " +
